@@ -30,11 +30,13 @@ def run(ctx):
                 'expanded into %d machine states (all 34 core registers from corners/pointers/random, NZCVQ/GE/IT/AIF/mode random and valid); '
                 'emulate_cycle() is compared with the reference machine on the complete snapshot (registers of every bank, CPSR, SPSRs, '
                 'system registers, all memory bytes). UNPREDICTABLE cases are only checked for totality. Non-trivial: condition passed and '
-                'something other than PC/ITSTATE changed; distinct = (word, CPSR, core registers).' % e1prop.VECS)
+                'something other than PC/ITSTATE changed; distinct = (word, CPSR, core registers). Plus the same encoding executed twice by one instance (X ; flag-setting instruction ; [IT] ; X), '
+                'every step compared: nothing remembered from the first execution (carry-in of the immediate, set-flags-outside-IT) may leak into the second.' % e1prop.VECS)
     ctx.technique = 'property-based differential testing against an independent reference interpreter (Hypothesis-driven generation)'
     ctx.assumptions = ['vf/ref (tables + sem_dp.py + machine.py) is a faithful reading of DDI 0406C',
                        'MPU off and CPSR.E=0 here (protection and endianness are C14 / C13)']
     e1prop.run_plan(ctx, 'vf.props.c01:PLAN', PLAN, shards=32, quick=700, thorough=12000)
+    ctx.pmap(e1prop.shard_repeat, [('vf.props.c01:PLAN', ctx.shard_seed(900 + i), ctx.n(120, 2500)) for i in range(16)])
 
 
 def replay(case, bucket=None):
